@@ -7,7 +7,10 @@
 //	      (corpus=FILE: JSON array of strings), generated programs of the full surface grammar,
 //	      whitespace/comment re-spacings and token/byte-level mutations of each
 //
-// Oracles evaluated on the implementation alone for EVERY source of either stream (reported as violations):
+//	full  (full.go) the AST (module metadata included) or the ParseError, and the bytes of String(), of every source:
+//	      judged by the full-grammar parser and printer models (coq/c09/ParseFull.v, Printer.v)
+//
+// Oracles evaluated on the implementation alone for EVERY source of the ops and lex streams (reported as violations):
 //
 //	roundtrip   Parse(src) = q  =>  Parse(q.String()) succeeds and is reflect.DeepEqual to q
 //	respace     Parse of a re-spaced source (whitespace/comments inserted between tokens) is DeepEqual
@@ -35,6 +38,7 @@ func main() {
 	Register("ops", runOps)
 	Register("lex", runLex)
 	Register("one", runOne)
+	Register("full", runFull)
 	Main()
 }
 
